@@ -186,11 +186,33 @@ def _wide_leaf(rng, i):
     return Path("p/%d" % i)
 
 
+def gen_numeric_table(rng, depth=2):
+    """rectangular (sometimes ragged) all-numeric table whose rows are lists and tuples in any mix; depth 3 = table of tables."""
+    nrows = int(rng.integers(1, 6))
+    if depth > 2:
+        rows = [gen_numeric_table(rng, depth - 1) for _ in range(int(rng.integers(1, 4)))]
+        return rows if rng.random() < 0.5 else tuple(rows)
+    ncols = int(rng.integers(0, 5))
+    ragged = rng.random() < 0.15
+    style = int(rng.integers(3))
+    rows = []
+    for _ in range(nrows):
+        n = int(rng.integers(0, 5)) if ragged else ncols
+        if style == 0:
+            vals = [int(v) for v in rng.integers(-999, 999, size=n)]
+        elif style == 1:
+            vals = [float(v) for v in rng.normal(size=n)]
+        else:
+            vals = [[True, int(rng.integers(-9, 9)), float(rng.normal()), np.int16(int(rng.integers(-99, 99))), np.float32(float(rng.integers(1, 99)) + 0.5)][int(rng.integers(5))] for _ in range(n)]
+        rows.append(tuple(vals) if rng.random() < 0.5 else vals)
+    return rows if rng.random() < 0.6 else tuple(rows)
+
+
 def gen_value(rng, depth, maxdepth, stats, in_container=False):
     """one value; containers / objects recurse until maxdepth."""
     can_nest = depth < maxdepth
-    cats = ["scalar", "np", "arr", "tensor", "numseq", "misc", "heavy"]
-    w = [5, 2, 4, 2, 2, 0.5, 0.25]
+    cats = ["scalar", "np", "arr", "tensor", "numseq", "misc", "heavy", "numtable"]
+    w = [5, 2, 4, 2, 2, 0.5, 0.25, 0.8]
     if can_nest:
         cats += ["list", "tuple", "dict", "set", "obj"]
         w += [2, 1.5, 2, 1.5, 2]
@@ -209,6 +231,8 @@ def gen_value(rng, depth, maxdepth, stats, in_container=False):
     if c == "numseq":
         v = gen_numeric_seq(rng)
         return tuple(v) if rng.random() < 0.4 else v
+    if c == "numtable":
+        return gen_numeric_table(rng, 2 if rng.random() < 0.85 else 3)
     if c == "misc":
         return build_kind(_MISC_KINDS[int(rng.integers(len(_MISC_KINDS)))], rng)
     if c == "heavy":
